@@ -731,9 +731,6 @@ func (w *mw) exec(task string, op mwOp, fromHandler bool) *opRec {
 				r.evalRan = true
 				w.evalIn(op.id)
 			}, nil)
-			// Eval may have been served by another goroutine, which is still
-			// running: do nothing observable before being scheduled again
-			w.s.Yield("h.woken", "")
 			if ok {
 				r.res = am.Executed
 			} else {
@@ -741,6 +738,11 @@ func (w *mw) exec(task string, op mwOp, fromHandler bool) *opRec {
 			}
 		}
 	}()
+	if op.kind == opEval {
+		// Eval may have been served (or abandoned) by another goroutine which
+		// is still running: do nothing observable before being scheduled again
+		w.s.Yield("h.woken", "")
+	}
 	r.done = true
 	r.retStep = w.s.Step()
 	r.txA = len(w.txs)
